@@ -81,85 +81,3 @@ theorem choose_progress (bds : List Desc) (b : Option Desc) (ω : Oracle) (hne :
   exact pickFrom_benign _ _ _ e h
 
 end GBS
-
-namespace GBS
-
-/-! ## A certificate that a stochastic object can always grow and be capped -/
-
-/-- equality of descriptors up to the attachment atom (a copy placed in a molecule has its atom index shifted) -/
-def dEq (x y : Desc) : Prop := x.sym = y.sym ∧ x.id = y.id ∧ x.order = y.order ∧ x.weight = y.weight ∧ x.trans = y.trans
-
-instance (x y : Desc) : Decidable (dEq x y) := by unfold dEq; infer_instance
-
-theorem dEq.refl (x : Desc) : dEq x x := ⟨rfl, rfl, rfl, rfl, rfl⟩
-
-theorem dEq_shift (d : Desc) (off : Nat) : dEq { d with atom := d.atom + off } d := ⟨rfl, rfl, rfl, rfl, rfl⟩
-
-/-- `x` belongs (up to the atom) to the set `R` of descriptor classes that may be open -/
-def InR (R : List Desc) (x : Desc) : Prop := ∃ y ∈ R, dEq x y
-
-instance (R : List Desc) (x : Desc) : Decidable (InR R x) := by unfold InR; infer_instance
-
-theorem isCompatible_dEq_left {x y : Desc} (h : dEq x y) (b : Desc) : isCompatible x b = isCompatible y b := by
-  rw [C03_symm x b, C03_symm y b]
-  exact isCompatible_congr_right b x y h.1 h.2.1 h.2.2.1
-
-theorem isCompatible_dEq_right {x y : Desc} (h : dEq x y) (b : Desc) : isCompatible b x = isCompatible b y :=
-  isCompatible_congr_right b x y h.1 h.2.1 h.2.2.1
-
-/-- entering the object at index `c` (repeat units first, then end groups) from the open descriptor `x` works and leaves only
-descriptors of `R` open -/
-def EntryOK (o : Stoch) (R : List Desc) (x : Desc) (c : Nat) : Prop :=
-  match o.entry c with
-  | some (tok, k, d) => tok.generable = true ∧ tok.bds[k]? = some d ∧ isCompatible d x = true ∧ ∀ y ∈ tok.bds.eraseIdx k, InR R y
-  | none => False
-
-instance (o : Stoch) (R : List Desc) (x : Desc) (c : Nat) : Decidable (EntryOK o R x c) := by
-  unfold EntryOK; split <;> infer_instance
-
-/-- the partner pick of `add_repeat_unit` from the open descriptor `x` cannot raise, and whatever it picks can be attached -/
-def GrowOK (o : Stoch) (R : List Desc) (x : Desc) : Prop :=
-  match x.trans with
-  | none =>
-    compatibleIds (o.repeatBonds.map (·.2.2)) (some x) ≠ [] ∧
-    (∀ c ∈ compatibleIds (o.repeatBonds.map (·.2.2)) (some x), 0 ≤ ((o.repeatBonds.map (·.2.2)).getD c default).weight) ∧
-    ∀ c ∈ compatibleIds (o.repeatBonds.map (·.2.2)) (some x), EntryOK o R x c
-  | some l =>
-    l ≠ [] ∧ probsOk (l.map (· / x.weight)) x.weight = true ∧
-    ∀ c ∈ List.range l.length, 0 < l.getD c 0 / x.weight → EntryOK o R x c
-
-instance (o : Stoch) (R : List Desc) (x : Desc) : Decidable (GrowOK o R x) := by
-  unfold GrowOK; split <;> infer_instance
-
-/-- an end group can cap the open descriptor `x` -/
-def CapOK (o : Stoch) (x : Desc) : Prop :=
-  compatibleIds (o.endBonds.map (·.2.2)) (some x) ≠ [] ∧
-  ∀ c ∈ compatibleIds (o.endBonds.map (·.2.2)) (some x),
-    0 ≤ ((o.endBonds.map (·.2.2)).getD c default).weight ∧
-    match o.endBonds[c]? with
-    | some (tok, k, d) => tok.generable = true ∧ tok.bds[k]? = some d ∧ tok.bds.length = 1
-    | none => False
-
-instance (o : Stoch) (x : Desc) : Decidable (CapOK o x) := by
-  unfold CapOK
-  apply instDecidableAnd (dq := ?_)
-  apply List.decidableBAll (p := _) (dp := ?_)
-  intro c
-  apply instDecidableAnd (dq := ?_)
-  split <;> infer_instance
-
-/-- **certificate**: every descriptor class of `R` has non-negative weight, can grow into `R`, and can be capped -/
-def Cert (o : Stoch) (R : List Desc) : Prop :=
-  (∀ x ∈ R, 0 ≤ x.weight) ∧ (∀ x ∈ R, GrowOK o R x) ∧ (∀ x ∈ R, CapOK o x)
-
-instance (o : Stoch) (R : List Desc) : Decidable (Cert o R) := by unfold Cert; infer_instance
-
-theorem GrowOK_dEq {o : Stoch} {R : List Desc} {x y : Desc} (h : dEq x y) (hy : GrowOK o R y) : GrowOK o R x := by
-  have hcomp : ∀ l : List Desc, compatibleIds l (some x) = compatibleIds l (some y) := by
-    intro l
-    apply List.ext_getElem?
-    intro n
-    sorry
-  sorry
-
-end GBS
